@@ -79,6 +79,13 @@ func specOf(inst string) string {
 
 var reSnap = regexp.MustCompile(`snap=-?\d+`)
 
+// reEmptyProv matches an empty entry of a providers map in the fingerprint
+// (" <key>=>[]"): the rollback after a cycle rejection leaves such entries.
+var reEmptyProv = regexp.MustCompile(` [^ \n]*=>\[\]`)
+
+// fpModuloEmptyEntries drops empty providers entries from a fingerprint.
+func fpModuloEmptyEntries(fp string) string { return reEmptyProv.ReplaceAllString(fp, "") }
+
 // fpModuloSnap drops graphHolder.snap from a fingerprint: it is written by
 // Snapshot() at the start of every provide() for every affected scope before
 // Rollback() can read it, so its value between API calls is dead.
@@ -136,12 +143,21 @@ func noTraceMonitor(prefix string, contDepth int, alwaysCompare bool, contOps []
 		base := ops[:len(ops)-1]
 		with := ops
 		rb := h.Replay(c.Sc.Cfg, c.Sc.Plans, base)
-		fpEqual := fpEquivalent(rb.Fingerprint(), c.Run.Fingerprint())
+		fpb, fpw := rb.Fingerprint(), c.Run.Fingerprint()
+		fpEqual := fpEquivalent(fpb, fpw)
+		depthHere := contDepth
 		if fpEqual {
 			c.Hit("rejected_fingerprint_equal")
 			if !alwaysCompare {
 				return vs
 			}
+		} else if !alwaysCompare && fpEquivalent(fpModuloEmptyEntries(fpb), fpModuloEmptyEntries(fpw)) {
+			// the only difference is an empty providers entry left by the
+			// rollback: nothing in the current code can observe it, so the
+			// quick tier compares single-op continuations only (which is
+			// where a change that makes it observable shows first)
+			c.Hit("rejected_fingerprint_differs_by_empty_entries")
+			depthHere = 1
 		} else {
 			c.Hit("rejected_fingerprint_differs")
 		}
@@ -184,7 +200,7 @@ func noTraceMonitor(prefix string, contDepth int, alwaysCompare bool, contOps []
 			}
 			return nil
 		}
-		if v := explore(nil, contDepth); v != nil {
+		if v := explore(nil, depthHere); v != nil {
 			vs = append(vs, *v)
 		}
 		c.Stats["continuations_compared"] += compared
@@ -276,6 +292,8 @@ func c06Units(tier string) []Unit {
 			continue // under DeferAcyclicVerification no Provide is rejected for a cycle
 		}
 		add("cycles"+tag, cfg, prefixChild, ring, ringConts, d, explore.Budget{Provides: 4, Invokes: 1, Rejected: 0})
+		shadow := alpha{scopes: sc2, ctors: []*uFunc{pA, pB, rAB, pC}, invokes: []*uFunc{iA, iB}}
+		add("cycles-over-inherited-keys"+tag, cfg, prefixChild, shadow, alpha{scopes: sc2, ctors: []*uFunc{pA, pB, rAB}, invokes: []*uFunc{iA, iB, iAo, iC}}, d, explore.Budget{Provides: 4, Invokes: 1, Rejected: 0})
 		sc3 := []int{0, 1, 2}
 		ring3 := alpha{scopes: sc3, ctors: []*uFunc{rAB, rBC, rCA}, export: true, invokes: []*uFunc{iA}}
 		ring3Conts := alpha{scopes: sc3, ctors: []*uFunc{pA, pB, pC, rAB, rBC, rCA}, invokes: []*uFunc{iA, iB, iC}}
